@@ -114,6 +114,21 @@ def run(ctx):
         cl, sp = (ob.get("classes", []), ob.get("spans", [])) if ob.get("ok") else ([], [])
         for kind, m in mutants(s, cl, sp, rnd, per):
             inputs.append((kind, m, None))
+    # (2b) the literal grammar (spec/GenLit.tla): every piece sequence, closed and cut off at the end of the file
+    with ctx.timed("tlc_lit"):
+        gl = common.tlc(ctx, "GenLit", cfg="GenLit_2", workers=8, timeout=3000)
+        common.require_tlc_ok(ctx, gl, "GenLit")
+        glrows = gl["cases"]["CASE"]
+        if not ctx.quick:
+            g3 = common.tlc(ctx, "GenLit", cfg="GenLit_3", workers=8, timeout=6000)
+            common.require_tlc_ok(ctx, g3, "GenLit")
+            glrows = glrows + rnd.sample(g3["cases"]["CASE"], min(len(g3["cases"]["CASE"]), 150000))
+    if ctx.quick:
+        must = [r for r in glrows if r["pieces"] <= 1 or (not r["closed"] and not r["text"].endswith("<NL>"))]
+        rest = [r for r in glrows if not (r["pieces"] <= 1 or (not r["closed"] and not r["text"].endswith("<NL>")))]
+        glrows = must + rnd.sample(rest, min(len(rest), 2500))
+    for r in glrows:
+        inputs.append(("literal", r["text"].replace("<NL>", "\n").replace("<E>", "é").replace("<U>", "\U0001F600"), None))
     # (3) outside the model: atom strings (totality only)
     n_atoms = 2 if ctx.quick else 3
     atom_inputs = ["".join(t) for n in range(1, n_atoms + 1) for t in itertools.product(ATOMS, repeat=n)]
